@@ -198,6 +198,29 @@ let has (m : string) (p : string) = (try ignore (Str.search_forward (Str.regexp_
 let between_ticks (m : string) : string option =
   try let a = String.index m '`' in let b = String.index_from m (a + 1) '`' in Some (String.sub m (a + 1) (b - a - 1)) with Not_found -> None
 
+(* the marked range is the identifier's own syntax node when the identifier stands alone in parentheses: the
+   tokens of [s, e) are k opening parentheses, the identifier, k closing parentheses (a group takes the range
+   of its parentheses; blanks and comments between the tokens belong to that range) *)
+let parenthesised_identifier (src : string) (toks : Sexp.t) (s : int) (e : int) (x : string) : bool =
+  match toks with
+  | L (A "toks" :: its) ->
+    let ts = List.map tok_of_sexp its in
+    let inside = List.filter (fun tk -> int_of_nat tk.tstart >= s && int_of_nat tk.tend <= e) ts in
+    let text tk = String.sub src (int_of_nat tk.tstart) (int_of_nat tk.tend - int_of_nat tk.tstart) in
+    let rec strip l =
+      match l with
+      | first :: rest when text first = "(" && rest <> [] ->
+        (match List.rev rest with
+         | last :: mid_rev when text last = ")" -> strip (List.rev mid_rev)
+         | _ -> None)
+      | [ one ] -> Some one
+      | _ -> None in
+    (match inside with
+     | first :: _ when int_of_nat first.tstart = s && int_of_nat (List.nth inside (List.length inside - 1)).tend = e ->
+       (match strip inside with Some one -> text one = x | None -> false)
+     | _ -> false)
+  | _ -> false
+
 let check (case : Sexp.t) (res : Sexp.t) : [ `Ok | `Mismatch of string | `Property of string ] * bool =
   match case, res with
   | _, L [ A "panic"; m ] -> (`Property ("panic " ^ atom m), true)
@@ -235,6 +258,7 @@ let check (case : Sexp.t) (res : Sexp.t) : [ `Ok | `Mismatch of string | `Proper
                       if scoping || lexing then
                         (match between_ticks head with
                          | Some x when x = marked -> None
+                         | Some x when scoping && parenthesised_identifier src toks s e x -> None
                          | Some x -> Some (Printf.sprintf "the diagnostic about `%s` marks `%s`" x marked)
                          | None -> None)
                       else if List.mem (s, e) nodes then None
